@@ -42,4 +42,20 @@ void h_propagate(void) {
     __CPROVER_assert(IMPLIES(ghost_implA.status_ != 0, ghost_rec_PropagateStatus_calls == 1 && ghost_rec_PropagateStatus_status == ghost_implA.status_), "MinkowskiDifference: errored left operand");
     __CPROVER_assert(IMPLIES(ghost_implA.status_ == 0 && ghost_implB.status_ != 0, ghost_rec_PropagateStatus_calls == 1 && ghost_rec_PropagateStatus_status == ghost_implB.status_), "MinkowskiDifference: errored right operand"); }
 }
+void h_propagate_more(void) {
+  struct Manifold arr[2]; struct linalg_vec_double_3 nrm; double d = nondet_double();
+  ghost_mA = &arr[0];
+  ghost_implA.status_ = nondet_int(); ghost_implB.status_ = nondet_int();
+  __CPROVER_assume(0 <= ghost_implA.status_ && ghost_implA.status_ < ENUMCOUNT_Manifold_Error && 0 <= ghost_implB.status_ && ghost_implB.status_ < ENUMCOUNT_Manifold_Error);
+  unsigned long n = nondet_ulong(); __CPROVER_assume(n == 1 || n == 2);
+  struct std_vector_Manifold v = { arr, n, n };
+  HARNESS_END;
+  SATISFIABLE(n == 2 && ghost_implA.status_ == 0 && ghost_implB.status_ != 0);
+  { RESET(); (void)M_SplitByPlane(&arr[0], nrm, d); CHECK1("SplitByPlane"); }
+  { RESET(); (void)M_HullVec(&v);
+    _Bool errA = ghost_implA.status_ != 0, errB = n == 2 && ghost_implB.status_ != 0;
+    __CPROVER_assert(IMPLIES(errA || errB, ghost_rec_PropagateStatus_calls == 1), "Hull(vector): an errored operand anywhere in the list makes the hull an error");
+    __CPROVER_assert(IMPLIES(errA || errB, (errA && ghost_rec_PropagateStatus_status == ghost_implA.status_) || (errB && ghost_rec_PropagateStatus_status == ghost_implB.status_)), "Hull(vector): the status reported is that of an errored operand");
+    __CPROVER_assert(IMPLIES(!errA && !errB, ghost_rec_PropagateStatus_calls == 0), "Hull(vector): error-free operands are hulled"); }
+}
 #endif
